@@ -422,7 +422,9 @@ def polar_coordinates(
         return dist, np.arctan2(diff[..., 1], diff[..., 0])
 
     elif grid.dim == 3:
-        theta = np.arccos(diff[..., 2] / dist)
+        # the azimuthal angle is undefined at the origin, where we set it to zero
+        dist_safe = np.where(dist > 0, dist, 1.0)
+        theta = np.arccos(np.where(dist > 0, diff[..., 2] / dist_safe, 1.0))
         phi = np.arctan2(diff[..., 1], diff[..., 0])
         return dist, theta, phi
 
